@@ -1900,6 +1900,7 @@ type test =
 | TEq of word * word
 | TNe of word * word
 | TPrefix of word * char list
+| TArgsLeft
 
 type cmd =
 | CAssign of char list * word
@@ -1927,6 +1928,13 @@ and branches =
 and arms =
 | ANil
 | ACons of char list * cmds * arms
+
+(** val capp : cmds -> cmds -> cmds **)
+
+let rec capp a b =
+  match a with
+  | CNil -> b
+  | CCons (c, r) -> CCons (c, (capp r b))
 
 (** val prefix_strip : char list -> char list -> char list option **)
 
@@ -2261,7 +2269,7 @@ let expand_part st = function
 (** val expand_str : state -> word -> char list **)
 
 let expand_str st w =
-  concat_str (map (fun p -> fst (expand_part st p)) w)
+  join_str [] (map (fun p -> fst (expand_part st p)) w)
 
 (** val expand_word : state -> word -> char list list **)
 
@@ -2337,7 +2345,10 @@ let eval_test st t =
      Some
        (match prefix_strip p (expand_str st a) with
         | Some _ -> true
-        | None -> false))
+        | None -> false)
+   | TArgsLeft -> Some (match st.pos with
+                        | [] -> false
+                        | _ :: _ -> true))
 
 type gev =
 | GOpt of char list * char list
@@ -3548,8 +3559,8 @@ let run_script oracle nonce s st0 =
   | Cont st -> { r_exit = st.last0; r_st = st }
   | Exit (c, st) -> { r_exit = c; r_st = st }
 
-type config = { cf_filelist : nat; cf_release : bool; cf_entry : bool;
-                cf_calib : bool; cf_cvsroot : bool }
+type config = { cf_fl_dir : bool; cf_fl_local : bool; cf_release : bool;
+                cf_entry : bool; cf_calib : bool; cf_cvsroot : bool }
 
 (** val default_filelist : char list **)
 
@@ -3568,45 +3579,43 @@ let pkg_content name =
 let opt_if b a =
   if b then Some a else None
 
-(** val init_fs : char list list -> config -> fs **)
+(** val init_fs : char list list -> path list -> config -> fs **)
 
-let init_fs pkg c =
+let init_fs pkg slots c =
   app (((('s'::('c'::('r'::('i'::('p'::('t'::('s'::[]))))))) :: []), (Some
     Dir)) :: [])
     (app
       (map (fun n0 ->
         ((('s'::('c'::('r'::('i'::('p'::('t'::('s'::[]))))))) :: (n0 :: [])),
         (Some (File (pkg_content n0))))) pkg)
-      (((('s'::('c'::('r'::('i'::('p'::('t'::('s'::[]))))))) :: (('f'::('i'::('l'::('e'::('l'::('i'::('s'::('t'::('.'::('t'::('x'::('t'::[])))))))))))) :: [])),
-      (opt_if (Nat.eqb c.cf_filelist O) (File default_filelist))) :: (((('w'::('o'::('r'::('k'::[])))) :: []),
-      (Some
-      Dir)) :: (((('w'::('o'::('r'::('k'::[])))) :: (('f'::('i'::('l'::('e'::('l'::('i'::('s'::('t'::('.'::('t'::('x'::('t'::[])))))))))))) :: [])),
-      (opt_if (Nat.eqb c.cf_filelist (S O)) (File default_filelist))) :: (((('r'::('e'::('s'::('u'::('l'::('t'::('s'::[]))))))) :: []),
-      (Some Dir)) :: (((('o'::('u'::('t'::('2'::[])))) :: []), (Some
-      Dir)) :: (((('h'::('o'::('m'::('e'::[])))) :: []), (Some
-      Dir)) :: (((('h'::('o'::('m'::('e'::[])))) :: (('a'::('t'::('l'::('a'::('s'::[]))))) :: [])),
-      (Some
-      Dir)) :: (((('h'::('o'::('m'::('e'::[])))) :: (('a'::('t'::('l'::('a'::('s'::[]))))) :: (('r'::('e'::('l'::('e'::('a'::('s'::('e'::('_'::('s'::('e'::('t'::('u'::('p'::('.'::('s'::('h'::[])))))))))))))))) :: []))),
-      (opt_if c.cf_release (File sourced_release))) :: (((('o'::('p'::('t'::[]))) :: []),
-      (Some
-      Dir)) :: (((('o'::('p'::('t'::[]))) :: (('c'::('m'::('s'::[]))) :: [])),
-      (Some
-      Dir)) :: (((('o'::('p'::('t'::[]))) :: (('c'::('m'::('s'::[]))) :: (('e'::('n'::('t'::('r'::('y'::('p'::('o'::('i'::('n'::('t'::('.'::('s'::('h'::[]))))))))))))) :: []))),
-      (opt_if c.cf_entry (File sourced_entry))) :: (((('x'::('a'::('o'::('d'::('_'::('c'::('a'::('l'::('i'::('b'::('r'::('a'::('t'::('i'::('o'::('n'::('_'::('c'::('a'::('c'::('h'::('e'::[])))))))))))))))))))))) :: []),
-      (opt_if c.cf_calib Dir)) :: [])))))))))))))
+      (app
+        (((('s'::('c'::('r'::('i'::('p'::('t'::('s'::[]))))))) :: (('f'::('i'::('l'::('e'::('l'::('i'::('s'::('t'::('.'::('t'::('x'::('t'::[])))))))))))) :: [])),
+        (opt_if c.cf_fl_dir (File default_filelist))) :: (((('w'::('o'::('r'::('k'::[])))) :: []),
+        (Some
+        Dir)) :: (((('w'::('o'::('r'::('k'::[])))) :: (('f'::('i'::('l'::('e'::('l'::('i'::('s'::('t'::('.'::('t'::('x'::('t'::[])))))))))))) :: [])),
+        (opt_if c.cf_fl_local (File default_filelist))) :: (((('r'::('e'::('s'::('u'::('l'::('t'::('s'::[]))))))) :: []),
+        (Some Dir)) :: (((('o'::('u'::('t'::('2'::[])))) :: []), (Some
+        Dir)) :: (((('h'::('o'::('m'::('e'::[])))) :: []), (Some
+        Dir)) :: (((('h'::('o'::('m'::('e'::[])))) :: (('a'::('t'::('l'::('a'::('s'::[]))))) :: [])),
+        (Some
+        Dir)) :: (((('h'::('o'::('m'::('e'::[])))) :: (('a'::('t'::('l'::('a'::('s'::[]))))) :: (('r'::('e'::('l'::('e'::('a'::('s'::('e'::('_'::('s'::('e'::('t'::('u'::('p'::('.'::('s'::('h'::[])))))))))))))))) :: []))),
+        (opt_if c.cf_release (File sourced_release))) :: (((('o'::('p'::('t'::[]))) :: []),
+        (Some
+        Dir)) :: (((('o'::('p'::('t'::[]))) :: (('c'::('m'::('s'::[]))) :: [])),
+        (Some
+        Dir)) :: (((('o'::('p'::('t'::[]))) :: (('c'::('m'::('s'::[]))) :: (('e'::('n'::('t'::('r'::('y'::('p'::('o'::('i'::('n'::('t'::('.'::('s'::('h'::[]))))))))))))) :: []))),
+        (opt_if c.cf_entry (File sourced_entry))) :: (((('x'::('a'::('o'::('d'::('_'::('c'::('a'::('l'::('i'::('b'::('r'::('a'::('t'::('i'::('o'::('n'::('_'::('c'::('a'::('c'::('h'::('e'::[])))))))))))))))))))))) :: []),
+        (opt_if c.cf_calib Dir)) :: []))))))))))))
+        (map (fun p -> (p, None)) slots)))
 
 (** val init_state : config -> fs -> char list list -> state **)
 
 let init_state c f args =
-  { vars =
-    (if c.cf_cvsroot
-     then (('C'::('V'::('S'::('R'::('O'::('O'::('T'::[]))))))),
-            ('p'::('r'::('e'::('s'::('e'::('t'::[]))))))) :: []
-     else []); exported =
-    (if c.cf_cvsroot
-     then ('C'::('V'::('S'::('R'::('O'::('O'::('T'::[]))))))) :: []
-     else []); cwd = (('w'::('o'::('r'::('k'::[])))) :: []); fsys = f; pos =
-    args; optind = O; errexit = false; last0 = O; steps = O; tlog = [];
+  { vars = ((('C'::('V'::('S'::('R'::('O'::('O'::('T'::[]))))))),
+    (if c.cf_cvsroot then 'p'::('r'::('e'::('s'::('e'::('t'::[]))))) else [])) :: []);
+    exported = (('C'::('V'::('S'::('R'::('O'::('O'::('T'::[]))))))) :: []);
+    cwd = (('w'::('o'::('r'::('k'::[])))) :: []); fsys = f; pos = args;
+    optind = O; errexit = false; last0 = O; steps = O; tlog = [];
     unmodelled = false; scriptdir =
     (('s'::('c'::('r'::('i'::('p'::('t'::('s'::[]))))))) :: []) }
 
@@ -3628,6 +3637,35 @@ let rec run_history s c f = function
 | i :: r ->
   let x = invoke s c f i.i_args i.i_oracle i.i_nonce in
   x :: (run_history s c x.r_st.fsys r)
+
+(** val dest_slots : path list **)
+
+let dest_slots =
+  (('r'::('e'::('s'::('u'::('l'::('t'::('s'::[]))))))) :: (('A'::('N'::('A'::('L'::('Y'::('S'::('I'::('S'::('.'::('r'::('o'::('o'::('t'::[]))))))))))))) :: [])) :: ((('o'::('u'::('t'::('2'::[])))) :: (('A'::('N'::('A'::('L'::('Y'::('S'::('I'::('S'::('.'::('r'::('o'::('o'::('t'::[]))))))))))))) :: [])) :: ((('o'::('u'::('t'::('2'::[])))) :: (('n'::('a'::('m'::('e'::('d'::('.'::('r'::('o'::('o'::('t'::[])))))))))) :: [])) :: []))
+
+(** val run_dir_atlas : path **)
+
+let run_dir_atlas =
+  ('w'::('o'::('r'::('k'::[])))) :: (('r'::('e'::('l'::[]))) :: (('b'::('u'::('i'::('l'::('d'::[]))))) :: []))
+
+(** val run_dir_cms : path **)
+
+let run_dir_cms =
+  ('w'::('o'::('r'::('k'::[])))) :: (('a'::('n'::('a'::('l'::('y'::('s'::('i'::('s'::[])))))))) :: (('A'::('n'::('a'::('l'::('y'::('z'::('e'::('r'::[])))))))) :: []))
+
+(** val slots_atlas : path list **)
+
+let slots_atlas =
+  app dest_slots
+    (map (fun x -> app run_dir_atlas x)
+      ((('f'::('i'::('l'::('e'::('l'::('i'::('s'::('t'::('.'::('t'::('x'::('t'::[])))))))))))) :: []) :: ((('b'::('o'::('g'::('u'::('s'::[]))))) :: []) :: ((('b'::('o'::('g'::('u'::('s'::[]))))) :: (('d'::('a'::('t'::('a'::('-'::('A'::('N'::('A'::('L'::('Y'::('S'::('I'::('S'::[]))))))))))))) :: [])) :: ((('b'::('o'::('g'::('u'::('s'::[]))))) :: (('d'::('a'::('t'::('a'::('-'::('A'::('N'::('A'::('L'::('Y'::('S'::('I'::('S'::[]))))))))))))) :: (('A'::('N'::('A'::('L'::('Y'::('S'::('I'::('S'::('.'::('r'::('o'::('o'::('t'::[]))))))))))))) :: []))) :: ((('r'::('e'::('l'::('_'::('o'::('u'::('t'::('.'::('r'::('o'::('o'::('t'::[])))))))))))) :: []) :: []))))))
+
+(** val slots_cms : path list **)
+
+let slots_cms =
+  app dest_slots
+    (map (fun x -> app run_dir_cms x)
+      ((('f'::('i'::('l'::('e'::('l'::('i'::('s'::('t'::('.'::('t'::('x'::('t'::[])))))))))))) :: []) :: ((('A'::('N'::('A'::('L'::('Y'::('S'::('I'::('S'::('.'::('r'::('o'::('o'::('t'::[]))))))))))))) :: []) :: ((('r'::('e'::('l'::('_'::('o'::('u'::('t'::('.'::('r'::('o'::('o'::('t'::[])))))))))))) :: []) :: []))))
 
 (** val pkg_atlas : char list list **)
 
@@ -3651,40 +3689,47 @@ let d_config = function
 | SList l ->
   (match l with
    | [] -> None
-   | a :: l0 ->
+   | a0 :: l0 ->
      (match l0 with
       | [] -> None
-      | b :: l1 ->
+      | a :: l1 ->
         (match l1 with
          | [] -> None
-         | c :: l2 ->
+         | b :: l2 ->
            (match l2 with
             | [] -> None
-            | d :: l3 ->
+            | c :: l3 ->
               (match l3 with
                | [] -> None
-               | e :: l4 ->
+               | d :: l4 ->
                  (match l4 with
-                  | [] ->
-                    (match d_nat a with
-                     | Some a' ->
-                       (match d_bool b with
-                        | Some b' ->
-                          (match d_bool c with
-                           | Some c' ->
-                             (match d_bool d with
-                              | Some d' ->
-                                (match d_bool e with
-                                 | Some e' ->
-                                   Some { cf_filelist = a'; cf_release = b';
-                                     cf_entry = c'; cf_calib = d';
-                                     cf_cvsroot = e' }
+                  | [] -> None
+                  | e :: l5 ->
+                    (match l5 with
+                     | [] ->
+                       (match d_bool a0 with
+                        | Some a0' ->
+                          (match d_bool a with
+                           | Some a' ->
+                             (match d_bool b with
+                              | Some b' ->
+                                (match d_bool c with
+                                 | Some c' ->
+                                   (match d_bool d with
+                                    | Some d' ->
+                                      (match d_bool e with
+                                       | Some e' ->
+                                         Some { cf_fl_dir = a0';
+                                           cf_fl_local = a'; cf_release = b';
+                                           cf_entry = c'; cf_calib = d';
+                                           cf_cvsroot = e' }
+                                       | None -> None)
+                                    | None -> None)
                                  | None -> None)
                               | None -> None)
                            | None -> None)
                         | None -> None)
-                     | None -> None)
-                  | _ :: _ -> None))))))
+                     | _ :: _ -> None)))))))
 
 (** val d_inv : sexp -> invocation option **)
 
@@ -3773,9 +3818,9 @@ let add_stale f l =
     | Some q -> fs_set f' q (Some (File (snd pc)))
     | None -> f') l f
 
-(** val run_wire : cmds -> char list list -> sexp -> sexp **)
+(** val run_wire : cmds -> char list list -> path list -> sexp -> sexp **)
 
-let run_wire s pkg = function
+let run_wire s pkg slots = function
 | SAtom _ -> bad_input
 | SList l ->
   (match l with
@@ -3804,7 +3849,7 @@ let run_wire s pkg = function
                              SList
                                (map enc_result
                                  (run_history s c'
-                                   (add_stale (init_fs pkg c') st') h'))
+                                   (add_stale (init_fs pkg slots c') st') h'))
                            | None -> bad_input)
                         | None -> bad_input)
                      | None -> bad_input)
@@ -3838,9 +3883,9 @@ let run_getopts = function
             | _ :: _ -> bad_input))
       | SList _ -> bad_input))
 
-(** val script : cmds **)
+(** val script_pre : cmds **)
 
-let script =
+let script_pre =
   CCons (CSetE, (CCons ((CAssign
     (('o'::('u'::('t'::('p'::('u'::('t'::('_'::('m'::('e'::('t'::('h'::('o'::('d'::[]))))))))))))),
     ((WLit ('c'::('p'::[]))) :: []))), (CCons ((CAssign
@@ -3860,8 +3905,22 @@ let script =
     (('c'::('a'::('l'::('i'::('b'::('_'::('c'::('a'::('c'::('h'::('e'::[]))))))))))),
     ((WLit
     ('/'::('x'::('a'::('o'::('d'::('_'::('c'::('a'::('l'::('i'::('b'::('r'::('a'::('t'::('i'::('o'::('n'::('_'::('c'::('a'::('c'::('h'::('e'::[])))))))))))))))))))))))) :: []))),
-    (CCons ((CGetopts (('d'::(':'::('o'::(':'::('c'::('r'::[])))))),
-    ('o'::('p'::('t'::[]))), (ACons (('d'::[]), (CCons ((CAssign
+    CNil)))))))))))))))
+
+(** val script_os : char list **)
+
+let script_os =
+  'd'::(':'::('o'::(':'::('c'::('r'::[])))))
+
+(** val script_var : char list **)
+
+let script_var =
+  'o'::('p'::('t'::[]))
+
+(** val script_arms : arms **)
+
+let script_arms =
+  ACons (('d'::[]), (CCons ((CAssign
     (('i'::('n'::('p'::('u'::('t'::('_'::('m'::('e'::('t'::('h'::('o'::('d'::[])))))))))))),
     ((WLit ('c'::('m'::('d'::[])))) :: []))), (CCons ((CAssign
     (('i'::('n'::('p'::('u'::('t'::('_'::('f'::('i'::('l'::('e'::[])))))))))),
@@ -3873,9 +3932,12 @@ let script =
     (('o'::('u'::('t'::('p'::('u'::('t'::('_'::('d'::('i'::('r'::[])))))))))),
     ((WVar (false, ('O'::('P'::('T'::('A'::('R'::('G'::[])))))))) :: []))),
     CNil)), (ACons (('?'::[]), (CCons ((CExit (S (S (S (S (S (S (S (S (S (S
-    O))))))))))), CNil)), ANil)))))))))))), (CCons (CShiftOpt, (CCons ((CIf
-    ((BCons ((TNe (((WVar (false, ('#'::[]))) :: []), ((WLit
-    ('0'::[])) :: []))), (CCons ((CEcho ((((WLit
+    O))))))))))), CNil)), ANil)))))))))
+
+(** val script_rest_of : (nat -> char list) -> cmds **)
+
+let script_rest_of hb =
+  CCons (CShiftOpt, (CCons ((CIf ((BCons (TArgsLeft, (CCons ((CEcho ((((WLit
     ('E'::('x'::('t'::('r'::('a'::(' '::('a'::('r'::('g'::('u'::('m'::('e'::('n'::('t'::('s'::(' '::('o'::('n'::(' '::('t'::('h'::('e'::(' '::('c'::('o'::('m'::('m'::('a'::('n'::('d'::(' '::('l'::('i'::('n'::('e'::(' '::[]))))))))))))))))))))))))))))))))))))) :: ((WVar
     (true, ('@'::[]))) :: [])) :: []), None)), (CCons ((CExit (S O)),
     CNil)))), BNil)), CNil)), (CCons ((CIf ((BCons ((TFileF ((WLit
@@ -3899,8 +3961,7 @@ let script =
     (((WLit ('m'::('k'::('d'::('i'::('r'::[])))))) :: []) :: (((WLit
     ('r'::('u'::('n'::[])))) :: []) :: []))), (CCons ((CHeredoc (((WLit
     ('s'::('o'::('u'::('r'::('c'::('e'::('/'::('C'::('M'::('a'::('k'::('e'::('L'::('i'::('s'::('t'::('s'::('.'::('t'::('x'::('t'::[])))))))))))))))))))))) :: []),
-    ('#'::('\n'::('#'::(' '::('P'::('r'::('o'::('j'::('e'::('c'::('t'::(' '::('c'::('o'::('n'::('f'::('i'::('g'::('u'::('r'::('a'::('t'::('i'::('o'::('n'::(' '::('f'::('o'::('r'::(' '::('U'::('s'::('e'::('r'::('A'::('n'::('a'::('l'::('y'::('s'::('i'::('s'::('.'::('\n'::('#'::('\n'::('p'::('r'::('o'::('j'::('e'::('c'::('t'::('('::('f'::('u'::('n'::('c'::('_'::('a'::('d'::('l'::('_'::('n'::('t'::('u'::('p'::('l'::('e'::('r'::(')'::('\n'::('\n'::('#'::(' '::('S'::('e'::('t'::(' '::('t'::('h'::('e'::(' '::('m'::('i'::('n'::('i'::('m'::('u'::('m'::(' '::('r'::('e'::('q'::('u'::('i'::('r'::('e'::('d'::(' '::('C'::('M'::('a'::('k'::('e'::(' '::('v'::('e'::('r'::('s'::('i'::('o'::('n'::(':'::('\n'::('c'::('m'::('a'::('k'::('e'::('_'::('m'::('i'::('n'::('i'::('m'::('u'::('m'::('_'::('r'::('e'::('q'::('u'::('i'::('r'::('e'::('d'::('('::(' '::('V'::('E'::('R'::('S'::('I'::('O'::('N'::(' '::('3'::('.'::('4'::(' '::('F'::('A'::('T'::('A'::('L'::('_'::('E'::('R'::('R'::('O'::('R'::(' '::(')'::('\n'::('\n'::('#'::(' '::('T'::('r'::('y'::(' '::('t'::('o'::(' '::('f'::('i'::('g'::('u'::('r'::('e'::(' '::('o'::('u'::('t'::(' '::('w'::('h'::('a'::('t'::(' '::('p'::('r'::('o'::('j'::('e'::('c'::('t'::(' '::('i'::('s'::(' '::('o'::('u'::('r'::(' '::('p'::('a'::('r'::('e'::('n'::('t'::('.'::(' '::('J'::('u'::('s'::('t'::(' '::('u'::('s'::('i'::('n'::('g'::(' '::('a'::(' '::('h'::('a'::('r'::('d'::('-'::('c'::('o'::('d'::('e'::('d'::(' '::('l'::('i'::('s'::('t'::('\n'::('#'::(' '::('o'::('f'::(' '::('p'::('o'::('s'::('s'::('i'::('b'::('l'::('e'::(' '::('p'::('r'::('o'::('j'::('e'::('c'::('t'::(' '::('n'::('a'::('m'::('e'::('s'::('.'::(' '::('B'::('a'::('s'::('i'::('c'::('a'::('l'::('l'::('y'::(' '::('t'::('h'::('e'::(' '::('n'::('a'::('m'::('e'::('s'::(' '::('o'::('f'::(' '::('a'::('l'::('l'::(' '::('t'::('h'::('e'::(' '::('o'::('t'::('h'::('e'::('r'::('\n'::('#'::(' '::('s'::('u'::('b'::('-'::('d'::('i'::('r'::('e'::('c'::('t'::('o'::('r'::('i'::('e'::('s'::(' '::('i'::('n'::('s'::('i'::('d'::('e'::(' '::('t'::('h'::('e'::(' '::('P'::('r'::('o'::('j'::('e'::('c'::('t'::('s'::('/'::(' '::('d'::('i'::('r'::('e'::('c'::('t'::('o'::('r'::('y'::(' '::('i'::('n'::(' '::('t'::('h'::('e'::(' '::('r'::('e'::('p'::('o'::('s'::('i'::('t'::('o'::('r'::('y'::('.'::('\n'::('s'::('e'::('t'::('('::(' '::('_'::('p'::('a'::('r'::('e'::('n'::('t'::('P'::('r'::('o'::('j'::('e'::('c'::('t'::('N'::('a'::('m'::('e'::('s'::(' '::('A'::('t'::('h'::('e'::('n'::('a'::(' '::('A'::('t'::('h'::('e'::('n'::('a'::('P'::('1'::(' '::('A'::('n'::('a'::('l'::('y'::('s'::('i'::('s'::('B'::('a'::('s'::('e'::(' '::('A'::('t'::('h'::('A'::('n'::('a'::('l'::('y'::('s'::('i'::('s'::('\n'::(' '::(' '::(' '::('A'::('t'::('h'::('S'::('i'::('m'::('u'::('l'::('a'::('t'::('i'::('o'::('n'::(' '::('A'::('t'::('h'::('D'::('e'::('r'::('i'::('v'::('a'::('t'::('i'::('o'::('n'::(' '::('A'::('n'::('a'::('l'::('y'::('s'::('i'::('s'::('T'::('o'::('p'::(' '::(')'::('\n'::('s'::('e'::('t'::('('::(' '::('_'::('d'::('e'::('f'::('a'::('u'::('l'::('t'::('P'::('a'::('r'::('e'::('n'::('t'::('P'::('r'::('o'::('j'::('e'::('c'::('t'::(' '::('A'::('n'::('a'::('l'::('y'::('s'::('i'::('s'::('B'::('a'::('s'::('e'::(' '::(')'::('\n'::('f'::('o'::('r'::('e'::('a'::('c'::('h'::('('::(' '::('_'::('p'::('p'::(' '::('$'::('{'::('_'::('p'::('a'::('r'::('e'::('n'::('t'::('P'::('r'::('o'::('j'::('e'::('c'::('t'::('N'::('a'::('m'::('e'::('s'::('}'::(' '::(')'::('\n'::(' '::(' '::(' '::('i'::('f'::('('::(' '::('N'::('O'::('T'::(' '::('"'::('$'::('E'::('N'::('V'::('{'::('$'::('{'::('_'::('p'::('p'::('}'::('_'::('D'::('I'::('R'::('}'::('"'::(' '::('S'::('T'::('R'::('E'::('Q'::('U'::('A'::('L'::(' '::('"'::('"'::(' '::(')'::('\n'::(' '::(' '::(' '::(' '::(' '::(' '::('s'::('e'::('t'::('('::(' '::('_'::('d'::('e'::('f'::('a'::('u'::('l'::('t'::('P'::('a'::('r'::('e'::('n'::('t'::('P'::('r'::('o'::('j'::('e'::('c'::('t'::(' '::('$'::('{'::('_'::('p'::('p'::('}'::(' '::(')'::('\n'::(' '::(' '::(' '::(' '::(' '::(' '::('b'::('r'::('e'::('a'::('k'::('('::(')'::('\n'::(' '::(' '::(' '::('e'::('n'::('d'::('i'::('f'::('('::(')'::('\n'::('e'::('n'::('d'::('f'::('o'::('r'::('e'::('a'::('c'::('h'::('('::(')'::('\n'::('\n'::('#'::(' '::('S'::('e'::('t'::(' '::('t'::('h'::('e'::(' '::('p'::('a'::('r'::('e'::('n'::('t'::(' '::('p'::('r'::('o'::('j'::('e'::('c'::('t'::(' '::('n'::('a'::('m'::('e'::(' '::('b'::('a'::('s'::('e'::('d'::(' '::('o'::('n'::(' '::('t'::('h'::('e'::(' '::('p'::('r'::('e'::('v'::('i'::('o'::('u'::('s'::(' '::('f'::('i'::('n'::('d'::('i'::('n'::('g'::('s'::(':'::('\n'::('s'::('e'::('t'::('('::(' '::('A'::('T'::('L'::('A'::('S'::('_'::('P'::('R'::('O'::('J'::('E'::('C'::('T'::(' '::('$'::('{'::('_'::('d'::('e'::('f'::('a'::('u'::('l'::('t'::('P'::('a'::('r'::('e'::('n'::('t'::('P'::('r'::('o'::('j'::('e'::('c'::('t'::('}'::('\n'::(' '::(' '::(' '::('C'::('A'::('C'::('H'::('E'::(' '::('S'::('T'::('R'::('I'::('N'::('G'::(' '::('"'::('T'::('h'::('e'::(' '::('n'::('a'::('m'::('e'::(' '::('o'::('f'::(' '::('t'::('h'::('e'::(' '::('p'::('a'::('r'::('e'::('n'::('t'::(' '::('p'::('r'::('o'::('j'::('e'::('c'::('t'::(' '::('t'::('o'::(' '::('b'::('u'::('i'::('l'::('d'::(' '::('a'::('g'::('a'::('i'::('n'::('s'::('t'::('"'::(' '::(')'::('\n'::('\n'::('#'::(' '::('C'::('l'::('e'::('a'::('n'::(' '::('u'::('p'::(':'::('\n'::('u'::('n'::('s'::('e'::('t'::('('::(' '::('_'::('p'::('a'::('r'::('e'::('n'::('t'::('P'::('r'::('o'::('j'::('e'::('c'::('t'::('N'::('a'::('m'::('e'::('s'::(' '::(')'::('\n'::('u'::('n'::('s'::('e'::('t'::('('::(' '::('_'::('d'::('e'::('f'::('a'::('u'::('l'::('t'::('P'::('a'::('r'::('e'::('n'::('t'::('P'::('r'::('o'::('j'::('e'::('c'::('t'::(' '::(')'::('\n'::('\n'::('#'::(' '::('F'::('i'::('n'::('d'::(' '::('t'::('h'::('e'::(' '::('A'::('n'::('a'::('l'::('y'::('s'::('i'::('s'::('B'::('a'::('s'::('e'::(' '::('p'::('r'::('o'::('j'::('e'::('c'::('t'::('.'::(' '::('T'::('h'::('i'::('s'::(' '::('i'::('s'::(' '::('w'::('h'::('a'::('t'::(','::(' '::('a'::('m'::('o'::('n'::('g'::('s'::('t'::(' '::('o'::('t'::('h'::('e'::('r'::(' '::('t'::('h'::('i'::('n'::('g'::('s'::(','::(' '::('p'::('u'::('l'::('l'::('s'::('\n'::('#'::(' '::('i'::('n'::(' '::('t'::('h'::('e'::(' '::('d'::('e'::('f'::('i'::('n'::('i'::('t'::('i'::('o'::('n'::(' '::('o'::('f'::(' '::('a'::('l'::('l'::(' '::('o'::('f'::(' '::('t'::('h'::('e'::(' '::('"'::('a'::('t'::('l'::('a'::('s'::('_'::('"'::(' '::('p'::('r'::('e'::('f'::('i'::('x'::('e'::('d'::(' '::('f'::('u'::('n'::('c'::('t'::('i'::('o'::('n'::('s'::('/'::('m'::('a'::('c'::('r'::('o'::('s'::('.'::('\n'::('f'::('i'::('n'::('d'::('_'::('p'::('a'::('c'::('k'::('a'::('g'::('e'::('('::(' '::('$'::('{'::('A'::('T'::('L'::('A'::('S'::('_'::('P'::('R'::('O'::('J'::('E'::('C'::('T'::('}'::(' '::('R'::('E'::('Q'::('U'::('I'::('R'::('E'::('D'::(' '::(')'::('\n'::('\n'::('#'::(' '::('S'::('e'::('t'::(' '::('u'::('p'::(' '::('C'::('T'::('e'::('s'::('t'::('.'::(' '::('T'::('h'::('i'::('s'::(' '::('m'::('a'::('k'::('e'::('s'::(' '::('s'::('u'::('r'::('e'::(' '::('t'::('h'::('a'::('t'::(' '::('p'::('e'::('r'::('-'::('p'::('a'::('c'::('k'::('a'::('g'::('e'::(' '::('b'::('u'::('i'::('l'::('d'::(' '::('l'::('o'::('g'::(' '::('f'::('i'::('l'::('e'::('s'::(' '::('c'::('a'::('n'::(' '::('b'::('e'::('\n'::('#'::(' '::('c'::('r'::('e'::('a'::('t'::('e'::('d'::(' '::('i'::('f'::(' '::('t'::('h'::('e'::(' '::('u'::('s'::('e'::('r'::(' '::('s'::('o'::(' '::('c'::('h'::('o'::('o'::('s'::('e'::('s'::('.'::('\n'::('a'::('t'::('l'::('a'::('s'::('_'::('c'::('t'::('e'::('s'::('t'::('_'::('s'::('e'::('t'::('u'::('p'::('('::(')'::('\n'::('\n'::('#'::(' '::('S'::('e'::('t'::(' '::('u'::('p'::(' '::('t'::('h'::('e'::(' '::('G'::('i'::('t'::('A'::('n'::('a'::('l'::('y'::('s'::('i'::('s'::('T'::('u'::('t'::('o'::('r'::('i'::('a'::('l'::(' '::('p'::('r'::('o'::('j'::('e'::('c'::('t'::('.'::(' '::('W'::('i'::('t'::('h'::(' '::('t'::('h'::('i'::('s'::(' '::('C'::('M'::('a'::('k'::('e'::(' '::('w'::('i'::('l'::('l'::(' '::('l'::('o'::('o'::('k'::(' '::('f'::('o'::('r'::(' '::('"'::('p'::('a'::('c'::('k'::('a'::('g'::('e'::('s'::('"'::('\n'::('#'::(' '::('i'::('n'::(' '::('t'::('h'::('e'::(' '::('c'::('u'::('r'::('r'::('e'::('n'::('t'::(' '::('r'::('e'::('p'::('o'::('s'::('i'::('t'::('o'::('r'::('y'::(' '::('a'::('n'::('d'::(' '::('a'::('l'::('l'::(' '::('o'::('f'::(' '::('i'::('t'::('s'::(' '::('s'::('u'::('b'::('m'::('o'::('d'::('u'::('l'::('e'::('s'::(','::(' '::('r'::('e'::('s'::('p'::('e'::('c'::('t'::('i'::('n'::('g'::(' '::('t'::('h'::('e'::('\n'::('#'::(' '::('"'::('p'::('a'::('c'::('k'::('a'::('g'::('e'::('_'::('f'::('i'::('l'::('t'::('e'::('r'::('s'::('.'::('t'::('x'::('t'::('"'::(' '::('f'::('i'::('l'::('e'::(','::(' '::('a'::('n'::('d'::(' '::('s'::('e'::('t'::(' '::('u'::('p'::(' '::('t'::('h'::('e'::(' '::('b'::('u'::('i'::('l'::('d'::(' '::('o'::('f'::(' '::('t'::('h'::('o'::('s'::('e'::(' '::('p'::('a'::('c'::('k'::('a'::('g'::('e'::('s'::('.'::('\n'::('a'::('t'::('l'::('a'::('s'::('_'::('p'::('r'::('o'::('j'::('e'::('c'::('t'::('('::(' '::('U'::('s'::('e'::('r'::('A'::('n'::('a'::('l'::('y'::('s'::('i'::('s'::(' '::('1'::('.'::('0'::('.'::('0'::('\n'::(' '::(' '::(' '::('U'::('S'::('E'::(' '::('$'::('{'::('A'::('T'::('L'::('A'::('S'::('_'::('P'::('R'::('O'::('J'::('E'::('C'::('T'::('}'::(' '::('$'::('{'::('$'::('{'::('A'::('T'::('L'::('A'::('S'::('_'::('P'::('R'::('O'::('J'::('E'::('C'::('T'::('}'::('_'::('V'::('E'::('R'::('S'::('I'::('O'::('N'::('}'::(' '::(')'::('\n'::('\n'::('#'::(' '::('S'::('e'::('t'::(' '::('u'::('p'::(' '::('t'::('h'::('e'::(' '::('r'::('u'::('n'::('t'::('i'::('m'::('e'::(' '::('e'::('n'::('v'::('i'::('r'::('o'::('n'::('m'::('e'::('n'::('t'::(' '::('s'::('e'::('t'::('u'::('p'::(' '::('s'::('c'::('r'::('i'::('p'::('t'::('.'::(' '::('T'::('h'::('i'::('s'::(' '::('m'::('a'::('k'::('e'::('s'::(' '::('s'::('u'::('r'::('e'::(' '::('t'::('h'::('a'::('t'::(' '::('t'::('h'::('e'::('\n'::('#'::(' '::('p'::('r'::('o'::('j'::('e'::('c'::('t'::('\''::('s'::(' '::('"'::('s'::('e'::('t'::('u'::('p'::('.'::('s'::('h'::('"'::(' '::('s'::('c'::('r'::('i'::('p'::('t'::(' '::('c'::('a'::('n'::(' '::('s'::('e'::('t'::(' '::('u'::('p'::(' '::('a'::(' '::('f'::('u'::('l'::('l'::('y'::(' '::('f'::('u'::('n'::('c'::('t'::('i'::('o'::('n'::('a'::('l'::(' '::('r'::('u'::('n'::('t'::('i'::('m'::('e'::(' '::('e'::('n'::('v'::('i'::('r'::('o'::('n'::('m'::('e'::('n'::('t'::(','::('\n'::('#'::(' '::('i'::('n'::('c'::('l'::('u'::('d'::('i'::('n'::('g'::(' '::('a'::('l'::('l'::(' '::('t'::('h'::('e'::(' '::('e'::('x'::('t'::('e'::('r'::('n'::('a'::('l'::('s'::(' '::('t'::('h'::('a'::('t'::(' '::('t'::('h'::('e'::(' '::('p'::('r'::('o'::('j'::('e'::('c'::('t'::(' '::('u'::('s'::('e'::('s'::('.'::('\n'::('l'::('c'::('g'::('_'::('g'::('e'::('n'::('e'::('r'::('a'::('t'::('e'::('_'::('e'::('n'::('v'::('('::(' '::('S'::('H'::('_'::('F'::('I'::('L'::('E'::(' '::('$'::('{'::('C'::('M'::('A'::('K'::('E'::('_'::('B'::('I'::('N'::('A'::('R'::('Y'::('_'::('D'::('I'::('R'::('}'::('/'::('$'::('{'::('A'::('T'::('L'::('A'::('S'::('_'::('P'::('L'::('A'::('T'::('F'::('O'::('R'::('M'::('}'::('/'::('e'::('n'::('v'::('_'::('s'::('e'::('t'::('u'::('p'::('.'::('s'::('h'::(' '::(')'::('\n'::('i'::('n'::('s'::('t'::('a'::('l'::('l'::('('::(' '::('F'::('I'::('L'::('E'::('S'::(' '::('$'::('{'::('C'::('M'::('A'::('K'::('E'::('_'::('B'::('I'::('N'::('A'::('R'::('Y'::('_'::('D'::('I'::('R'::('}'::('/'::('$'::('{'::('A'::('T'::('L'::('A'::('S'::('_'::('P'::('L'::('A'::('T'::('F'::('O'::('R'::('M'::('}'::('/'::('e'::('n'::('v'::('_'::('s'::('e'::('t'::('u'::('p'::('.'::('s'::('h'::('\n'::(' '::(' '::(' '::('D'::('E'::('S'::('T'::('I'::('N'::('A'::('T'::('I'::('O'::('N'::(' '::('.'::(' '::(')'::('\n'::('\n'::('#'::(' '::('S'::('e'::('t'::(' '::('u'::('p'::(' '::('C'::('P'::('a'::('c'::('k'::('.'::(' '::('T'::('h'::('i'::('s'::(' '::('c'::('a'::('l'::('l'::(' '::('m'::('a'::('k'::('e'::('s'::(' '::('s'::('u'::('r'::('e'::(' '::('t'::('h'::('a'::('t'::(' '::('a'::('n'::(' '::('R'::('P'::('M'::(' '::('o'::('r'::(' '::('T'::('G'::('Z'::(' '::('f'::('i'::('l'::('e'::(' '::('c'::('a'::('n'::(' '::('b'::('e'::(' '::('c'::('r'::('e'::('a'::('t'::('e'::('d'::('\n'::('#'::(' '::('f'::('r'::('o'::('m'::(' '::('t'::('h'::('e'::(' '::('b'::('u'::('i'::('l'::('t'::(' '::('p'::('r'::('o'::('j'::('e'::('c'::('t'::('.'::(' '::('U'::('s'::('e'::('d'::(' '::('b'::('y'::(' '::('P'::('a'::('n'::('d'::('a'::(' '::('t'::('o'::(' '::('s'::('e'::('n'::('d'::(' '::('t'::('h'::('e'::(' '::('p'::('r'::('o'::('j'::('e'::('c'::('t'::(' '::('t'::('o'::(' '::('t'::('h'::('e'::(' '::('g'::('r'::('i'::('d'::(' '::('w'::('o'::('r'::('k'::('e'::('r'::('\n'::('#'::(' '::('n'::('o'::('d'::('e'::('s'::('.'::('\n'::('a'::('t'::('l'::('a'::('s'::('_'::('c'::('p'::('a'::('c'::('k'::('_'::('s'::('e'::('t'::('u'::('p'::('('::(')'::('\n'::[]))))))))))))))))))))))))))))))))))))))))))))))))))))))))))))))))))))))))))))))))))))))))))))))))))))))))))))))))))))))))))))))))))))))))))))))))))))))))))))))))))))))))))))))))))))))))))))))))))))))))))))))))))))))))))))))))))))))))))))))))))))))))))))))))))))))))))))))))))))))))))))))))))))))))))))))))))))))))))))))))))))))))))))))))))))))))))))))))))))))))))))))))))))))))))))))))))))))))))))))))))))))))))))))))))))))))))))))))))))))))))))))))))))))))))))))))))))))))))))))))))))))))))))))))))))))))))))))))))))))))))))))))))))))))))))))))))))))))))))))))))))))))))))))))))))))))))))))))))))))))))))))))))))))))))))))))))))))))))))))))))))))))))))))))))))))))))))))))))))))))))))))))))))))))))))))))))))))))))))))))))))))))))))))))))))))))))))))))))))))))))))))))))))))))))))))))))))))))))))))))))))))))))))))))))))))))))))))))))))))))))))))))))))))))))))))))))))))))))))))))))))))))))))))))))))))))))))))))))))))))))))))))))))))))))))))))))))))))))))))))))))))))))))))))))))))))))))))))))))))))))))))))))))))))))))))))))))))))))))))))))))))))))))))))))))))))))))))))))))))))))))))))))))))))))))))))))))))))))))))))))))))))))))))))))))))))))))))))))))))))))))))))))))))))))))))))))))))))))))))))))))))))))))))))))))))))))))))))))))))))))))))))))))))))))))))))))))))))))))))))))))))))))))))))))))))))))))))))))))))))))))))))))))))))))))))))))))))))))))))))))))))))))))))))))))))))))))))))))))))))))))))))))))))))))))))))))))))))))))))))))))))))))))))))))))))))))))))))))))))))))))))))))))))))))))))))))))))))))))))))))))))))))))))))))))))))))))))))))))))))))))))))))))))))))))))))))))))))))))))))))))))))))))))))))))))))))))))))))))))))))))))))))))))))))))))))))))))))))))))))))))))))))))))))))))))))))))))))))))))))))))))))))))))))))))))))))))))))))))))))))))))))))))))))))))))))))))))))))))))))))))))))))))))))))))))))))))))))))))))))))))))))))))))))))))))))))))))))))))))))))))))))))))))))))))))))))))))))))))))))))))))))))))))))))))))))))))))))))))))))))))))))))))))))))))))))))))))))))))))))))))))))))))))))))))))))))))))))))))))))))))))))))))))))))))))))))))))))))))))))))))))))))))))))))))))))))))))))))))))))))))),
-    (CCons ((CCd ((WLit
+    (hb O))), (CCons ((CCd ((WLit
     ('s'::('o'::('u'::('r'::('c'::('e'::[]))))))) :: [])), (CCons ((CRun
     (((WLit ('m'::('k'::('d'::('i'::('r'::[])))))) :: []) :: (((WLit
     ('a'::('n'::('a'::('l'::('y'::('s'::('i'::('s'::[]))))))))) :: []) :: []))),
@@ -3941,11 +4002,9 @@ let script =
     ('a'::('n'::('a'::('l'::('y'::('s'::('i'::('s'::('/'::('s'::('h'::('a'::('r'::('e'::('/'::('A'::('T'::('e'::('s'::('t'::('R'::('u'::('n'::('_'::('e'::('l'::('j'::('o'::('b'::('.'::('p'::('y'::[]))))))))))))))))))))))))))))))))) :: []) :: [])))),
     (CCons ((CHeredoc (((WLit
     ('a'::('n'::('a'::('l'::('y'::('s'::('i'::('s'::('/'::('a'::('n'::('a'::('l'::('y'::('s'::('i'::('s'::('/'::('q'::('u'::('e'::('r'::('y'::('D'::('i'::('c'::('t'::('.'::('h'::[])))))))))))))))))))))))))))))) :: []),
-    ('#'::('i'::('f'::('n'::('d'::('e'::('f'::(' '::('a'::('n'::('a'::('l'::('y'::('s'::('i'::('s'::('_'::('q'::('u'::('e'::('r'::('y'::('_'::('D'::('I'::('C'::('T'::('_'::('H'::('\n'::('#'::('d'::('e'::('f'::('i'::('n'::('e'::(' '::('a'::('n'::('a'::('l'::('y'::('s'::('i'::('s'::('_'::('q'::('u'::('e'::('r'::('y'::('_'::('D'::('I'::('C'::('T'::('_'::('H'::('\n'::('\n'::('/'::('/'::(' '::('T'::('h'::('i'::('s'::(' '::('f'::('i'::('l'::('e'::(' '::('i'::('n'::('c'::('l'::('u'::('d'::('e'::('s'::(' '::('a'::('l'::('l'::(' '::('t'::('h'::('e'::(' '::('h'::('e'::('a'::('d'::('e'::('r'::(' '::('f'::('i'::('l'::('e'::('s'::(' '::('t'::('h'::('a'::('t'::(' '::('y'::('o'::('u'::(' '::('n'::('e'::('e'::('d'::(' '::('t'::('o'::(' '::('c'::('r'::('e'::('a'::('t'::('e'::('\n'::('/'::('/'::(' '::('d'::('i'::('c'::('t'::('i'::('o'::('n'::('a'::('r'::('i'::('e'::('s'::(' '::('f'::('o'::('r'::('.'::('\n'::('\n'::('#'::('i'::('n'::('c'::('l'::('u'::('d'::('e'::(' '::('<'::('a'::('n'::('a'::('l'::('y'::('s'::('i'::('s'::('/'::('q'::('u'::('e'::('r'::('y'::('.'::('h'::('>'::('\n'::('\n'::('#'::('e'::('n'::('d'::('i'::('f'::('\n'::[])))))))))))))))))))))))))))))))))))))))))))))))))))))))))))))))))))))))))))))))))))))))))))))))))))))))))))))))))))))))))))))))))))))))))))))))))))))))))))))))))))))))))))))))))))))))))))),
-    (CCons ((CHeredoc (((WLit
+    (hb (S O)))), (CCons ((CHeredoc (((WLit
     ('a'::('n'::('a'::('l'::('y'::('s'::('i'::('s'::('/'::('a'::('n'::('a'::('l'::('y'::('s'::('i'::('s'::('/'::('s'::('e'::('l'::('e'::('c'::('t'::('i'::('o'::('n'::('.'::('x'::('m'::('l'::[])))))))))))))))))))))))))))))))) :: []),
-    ('<'::('l'::('c'::('g'::('d'::('i'::('c'::('t'::('>'::('\n'::('\n'::(' '::(' '::('<'::('!'::('-'::('-'::(' '::('T'::('h'::('i'::('s'::(' '::('f'::('i'::('l'::('e'::(' '::('c'::('o'::('n'::('t'::('a'::('i'::('n'::('s'::(' '::('a'::(' '::('l'::('i'::('s'::('t'::(' '::('o'::('f'::(' '::('a'::('l'::('l'::(' '::('c'::('l'::('a'::('s'::('s'::('e'::('s'::(' '::('f'::('o'::('r'::(' '::('w'::('h'::('i'::('c'::('h'::(' '::('a'::(' '::('d'::('i'::('c'::('t'::('i'::('o'::('n'::('a'::('r'::('y'::('\n'::(' '::(' '::(' '::(' '::(' '::(' '::(' '::('s'::('h'::('o'::('u'::('l'::('d'::(' '::('b'::('e'::(' '::('c'::('r'::('e'::('a'::('t'::('e'::('d'::('.'::(' '::('-'::('-'::('>'::('\n'::('\n'::(' '::(' '::('<'::('c'::('l'::('a'::('s'::('s'::(' '::('n'::('a'::('m'::('e'::('='::('"'::('q'::('u'::('e'::('r'::('y'::('"'::(' '::('/'::('>'::('\n'::(' '::(' '::(' '::('\n'::('<'::('/'::('l'::('c'::('g'::('d'::('i'::('c'::('t'::('>'::('\n'::[]))))))))))))))))))))))))))))))))))))))))))))))))))))))))))))))))))))))))))))))))))))))))))))))))))))))))))))))))))))))))))))))))))))))))))))))))))))))))))),
-    (CCons ((CCd ((WLit
+    (hb (S (S O))))), (CCons ((CCd ((WLit
     ('.'::('.'::('/'::('b'::('u'::('i'::('l'::('d'::[]))))))))) :: [])),
     (CCons ((CRun (((WLit
     ('c'::('m'::('a'::('k'::('e'::[])))))) :: []) :: (((WLit
@@ -4032,11 +4091,27 @@ let script =
     ('.'::('/'::('b'::('o'::('g'::('u'::('s'::('/'::('d'::('a'::('t'::('a'::('-'::('A'::('N'::('A'::('L'::('Y'::('S'::('I'::('S'::('/'::('A'::('N'::('A'::('L'::('Y'::('S'::('I'::('S'::('.'::('r'::('o'::('o'::('t'::[])))))))))))))))))))))))))))))))))))) :: []) :: (((WVar
     (false,
     ('d'::('e'::('s'::('t'::('i'::('n'::('a'::('t'::('i'::('o'::('n'::[]))))))))))))) :: []) :: [])))),
-    CNil)))))))))))))), BNil)), CNil)), CNil)))))))))))))))))))))))))))))))
+    CNil)))))))))))))), BNil)), CNil)), CNil)))))))))))))
 
-(** val script0 : cmds **)
+(** val heredocs : char list list **)
 
-let script0 =
+let heredocs =
+  ('#'::('\n'::('#'::(' '::('P'::('r'::('o'::('j'::('e'::('c'::('t'::(' '::('c'::('o'::('n'::('f'::('i'::('g'::('u'::('r'::('a'::('t'::('i'::('o'::('n'::(' '::('f'::('o'::('r'::(' '::('U'::('s'::('e'::('r'::('A'::('n'::('a'::('l'::('y'::('s'::('i'::('s'::('.'::('\n'::('#'::('\n'::('p'::('r'::('o'::('j'::('e'::('c'::('t'::('('::('f'::('u'::('n'::('c'::('_'::('a'::('d'::('l'::('_'::('n'::('t'::('u'::('p'::('l'::('e'::('r'::(')'::('\n'::('\n'::('#'::(' '::('S'::('e'::('t'::(' '::('t'::('h'::('e'::(' '::('m'::('i'::('n'::('i'::('m'::('u'::('m'::(' '::('r'::('e'::('q'::('u'::('i'::('r'::('e'::('d'::(' '::('C'::('M'::('a'::('k'::('e'::(' '::('v'::('e'::('r'::('s'::('i'::('o'::('n'::(':'::('\n'::('c'::('m'::('a'::('k'::('e'::('_'::('m'::('i'::('n'::('i'::('m'::('u'::('m'::('_'::('r'::('e'::('q'::('u'::('i'::('r'::('e'::('d'::('('::(' '::('V'::('E'::('R'::('S'::('I'::('O'::('N'::(' '::('3'::('.'::('4'::(' '::('F'::('A'::('T'::('A'::('L'::('_'::('E'::('R'::('R'::('O'::('R'::(' '::(')'::('\n'::('\n'::('#'::(' '::('T'::('r'::('y'::(' '::('t'::('o'::(' '::('f'::('i'::('g'::('u'::('r'::('e'::(' '::('o'::('u'::('t'::(' '::('w'::('h'::('a'::('t'::(' '::('p'::('r'::('o'::('j'::('e'::('c'::('t'::(' '::('i'::('s'::(' '::('o'::('u'::('r'::(' '::('p'::('a'::('r'::('e'::('n'::('t'::('.'::(' '::('J'::('u'::('s'::('t'::(' '::('u'::('s'::('i'::('n'::('g'::(' '::('a'::(' '::('h'::('a'::('r'::('d'::('-'::('c'::('o'::('d'::('e'::('d'::(' '::('l'::('i'::('s'::('t'::('\n'::('#'::(' '::('o'::('f'::(' '::('p'::('o'::('s'::('s'::('i'::('b'::('l'::('e'::(' '::('p'::('r'::('o'::('j'::('e'::('c'::('t'::(' '::('n'::('a'::('m'::('e'::('s'::('.'::(' '::('B'::('a'::('s'::('i'::('c'::('a'::('l'::('l'::('y'::(' '::('t'::('h'::('e'::(' '::('n'::('a'::('m'::('e'::('s'::(' '::('o'::('f'::(' '::('a'::('l'::('l'::(' '::('t'::('h'::('e'::(' '::('o'::('t'::('h'::('e'::('r'::('\n'::('#'::(' '::('s'::('u'::('b'::('-'::('d'::('i'::('r'::('e'::('c'::('t'::('o'::('r'::('i'::('e'::('s'::(' '::('i'::('n'::('s'::('i'::('d'::('e'::(' '::('t'::('h'::('e'::(' '::('P'::('r'::('o'::('j'::('e'::('c'::('t'::('s'::('/'::(' '::('d'::('i'::('r'::('e'::('c'::('t'::('o'::('r'::('y'::(' '::('i'::('n'::(' '::('t'::('h'::('e'::(' '::('r'::('e'::('p'::('o'::('s'::('i'::('t'::('o'::('r'::('y'::('.'::('\n'::('s'::('e'::('t'::('('::(' '::('_'::('p'::('a'::('r'::('e'::('n'::('t'::('P'::('r'::('o'::('j'::('e'::('c'::('t'::('N'::('a'::('m'::('e'::('s'::(' '::('A'::('t'::('h'::('e'::('n'::('a'::(' '::('A'::('t'::('h'::('e'::('n'::('a'::('P'::('1'::(' '::('A'::('n'::('a'::('l'::('y'::('s'::('i'::('s'::('B'::('a'::('s'::('e'::(' '::('A'::('t'::('h'::('A'::('n'::('a'::('l'::('y'::('s'::('i'::('s'::('\n'::(' '::(' '::(' '::('A'::('t'::('h'::('S'::('i'::('m'::('u'::('l'::('a'::('t'::('i'::('o'::('n'::(' '::('A'::('t'::('h'::('D'::('e'::('r'::('i'::('v'::('a'::('t'::('i'::('o'::('n'::(' '::('A'::('n'::('a'::('l'::('y'::('s'::('i'::('s'::('T'::('o'::('p'::(' '::(')'::('\n'::('s'::('e'::('t'::('('::(' '::('_'::('d'::('e'::('f'::('a'::('u'::('l'::('t'::('P'::('a'::('r'::('e'::('n'::('t'::('P'::('r'::('o'::('j'::('e'::('c'::('t'::(' '::('A'::('n'::('a'::('l'::('y'::('s'::('i'::('s'::('B'::('a'::('s'::('e'::(' '::(')'::('\n'::('f'::('o'::('r'::('e'::('a'::('c'::('h'::('('::(' '::('_'::('p'::('p'::(' '::('$'::('{'::('_'::('p'::('a'::('r'::('e'::('n'::('t'::('P'::('r'::('o'::('j'::('e'::('c'::('t'::('N'::('a'::('m'::('e'::('s'::('}'::(' '::(')'::('\n'::(' '::(' '::(' '::('i'::('f'::('('::(' '::('N'::('O'::('T'::(' '::('"'::('$'::('E'::('N'::('V'::('{'::('$'::('{'::('_'::('p'::('p'::('}'::('_'::('D'::('I'::('R'::('}'::('"'::(' '::('S'::('T'::('R'::('E'::('Q'::('U'::('A'::('L'::(' '::('"'::('"'::(' '::(')'::('\n'::(' '::(' '::(' '::(' '::(' '::(' '::('s'::('e'::('t'::('('::(' '::('_'::('d'::('e'::('f'::('a'::('u'::('l'::('t'::('P'::('a'::('r'::('e'::('n'::('t'::('P'::('r'::('o'::('j'::('e'::('c'::('t'::(' '::('$'::('{'::('_'::('p'::('p'::('}'::(' '::(')'::('\n'::(' '::(' '::(' '::(' '::(' '::(' '::('b'::('r'::('e'::('a'::('k'::('('::(')'::('\n'::(' '::(' '::(' '::('e'::('n'::('d'::('i'::('f'::('('::(')'::('\n'::('e'::('n'::('d'::('f'::('o'::('r'::('e'::('a'::('c'::('h'::('('::(')'::('\n'::('\n'::('#'::(' '::('S'::('e'::('t'::(' '::('t'::('h'::('e'::(' '::('p'::('a'::('r'::('e'::('n'::('t'::(' '::('p'::('r'::('o'::('j'::('e'::('c'::('t'::(' '::('n'::('a'::('m'::('e'::(' '::('b'::('a'::('s'::('e'::('d'::(' '::('o'::('n'::(' '::('t'::('h'::('e'::(' '::('p'::('r'::('e'::('v'::('i'::('o'::('u'::('s'::(' '::('f'::('i'::('n'::('d'::('i'::('n'::('g'::('s'::(':'::('\n'::('s'::('e'::('t'::('('::(' '::('A'::('T'::('L'::('A'::('S'::('_'::('P'::('R'::('O'::('J'::('E'::('C'::('T'::(' '::('$'::('{'::('_'::('d'::('e'::('f'::('a'::('u'::('l'::('t'::('P'::('a'::('r'::('e'::('n'::('t'::('P'::('r'::('o'::('j'::('e'::('c'::('t'::('}'::('\n'::(' '::(' '::(' '::('C'::('A'::('C'::('H'::('E'::(' '::('S'::('T'::('R'::('I'::('N'::('G'::(' '::('"'::('T'::('h'::('e'::(' '::('n'::('a'::('m'::('e'::(' '::('o'::('f'::(' '::('t'::('h'::('e'::(' '::('p'::('a'::('r'::('e'::('n'::('t'::(' '::('p'::('r'::('o'::('j'::('e'::('c'::('t'::(' '::('t'::('o'::(' '::('b'::('u'::('i'::('l'::('d'::(' '::('a'::('g'::('a'::('i'::('n'::('s'::('t'::('"'::(' '::(')'::('\n'::('\n'::('#'::(' '::('C'::('l'::('e'::('a'::('n'::(' '::('u'::('p'::(':'::('\n'::('u'::('n'::('s'::('e'::('t'::('('::(' '::('_'::('p'::('a'::('r'::('e'::('n'::('t'::('P'::('r'::('o'::('j'::('e'::('c'::('t'::('N'::('a'::('m'::('e'::('s'::(' '::(')'::('\n'::('u'::('n'::('s'::('e'::('t'::('('::(' '::('_'::('d'::('e'::('f'::('a'::('u'::('l'::('t'::('P'::('a'::('r'::('e'::('n'::('t'::('P'::('r'::('o'::('j'::('e'::('c'::('t'::(' '::(')'::('\n'::('\n'::('#'::(' '::('F'::('i'::('n'::('d'::(' '::('t'::('h'::('e'::(' '::('A'::('n'::('a'::('l'::('y'::('s'::('i'::('s'::('B'::('a'::('s'::('e'::(' '::('p'::('r'::('o'::('j'::('e'::('c'::('t'::('.'::(' '::('T'::('h'::('i'::('s'::(' '::('i'::('s'::(' '::('w'::('h'::('a'::('t'::(','::(' '::('a'::('m'::('o'::('n'::('g'::('s'::('t'::(' '::('o'::('t'::('h'::('e'::('r'::(' '::('t'::('h'::('i'::('n'::('g'::('s'::(','::(' '::('p'::('u'::('l'::('l'::('s'::('\n'::('#'::(' '::('i'::('n'::(' '::('t'::('h'::('e'::(' '::('d'::('e'::('f'::('i'::('n'::('i'::('t'::('i'::('o'::('n'::(' '::('o'::('f'::(' '::('a'::('l'::('l'::(' '::('o'::('f'::(' '::('t'::('h'::('e'::(' '::('"'::('a'::('t'::('l'::('a'::('s'::('_'::('"'::(' '::('p'::('r'::('e'::('f'::('i'::('x'::('e'::('d'::(' '::('f'::('u'::('n'::('c'::('t'::('i'::('o'::('n'::('s'::('/'::('m'::('a'::('c'::('r'::('o'::('s'::('.'::('\n'::('f'::('i'::('n'::('d'::('_'::('p'::('a'::('c'::('k'::('a'::('g'::('e'::('('::(' '::('$'::('{'::('A'::('T'::('L'::('A'::('S'::('_'::('P'::('R'::('O'::('J'::('E'::('C'::('T'::('}'::(' '::('R'::('E'::('Q'::('U'::('I'::('R'::('E'::('D'::(' '::(')'::('\n'::('\n'::('#'::(' '::('S'::('e'::('t'::(' '::('u'::('p'::(' '::('C'::('T'::('e'::('s'::('t'::('.'::(' '::('T'::('h'::('i'::('s'::(' '::('m'::('a'::('k'::('e'::('s'::(' '::('s'::('u'::('r'::('e'::(' '::('t'::('h'::('a'::('t'::(' '::('p'::('e'::('r'::('-'::('p'::('a'::('c'::('k'::('a'::('g'::('e'::(' '::('b'::('u'::('i'::('l'::('d'::(' '::('l'::('o'::('g'::(' '::('f'::('i'::('l'::('e'::('s'::(' '::('c'::('a'::('n'::(' '::('b'::('e'::('\n'::('#'::(' '::('c'::('r'::('e'::('a'::('t'::('e'::('d'::(' '::('i'::('f'::(' '::('t'::('h'::('e'::(' '::('u'::('s'::('e'::('r'::(' '::('s'::('o'::(' '::('c'::('h'::('o'::('o'::('s'::('e'::('s'::('.'::('\n'::('a'::('t'::('l'::('a'::('s'::('_'::('c'::('t'::('e'::('s'::('t'::('_'::('s'::('e'::('t'::('u'::('p'::('('::(')'::('\n'::('\n'::('#'::(' '::('S'::('e'::('t'::(' '::('u'::('p'::(' '::('t'::('h'::('e'::(' '::('G'::('i'::('t'::('A'::('n'::('a'::('l'::('y'::('s'::('i'::('s'::('T'::('u'::('t'::('o'::('r'::('i'::('a'::('l'::(' '::('p'::('r'::('o'::('j'::('e'::('c'::('t'::('.'::(' '::('W'::('i'::('t'::('h'::(' '::('t'::('h'::('i'::('s'::(' '::('C'::('M'::('a'::('k'::('e'::(' '::('w'::('i'::('l'::('l'::(' '::('l'::('o'::('o'::('k'::(' '::('f'::('o'::('r'::(' '::('"'::('p'::('a'::('c'::('k'::('a'::('g'::('e'::('s'::('"'::('\n'::('#'::(' '::('i'::('n'::(' '::('t'::('h'::('e'::(' '::('c'::('u'::('r'::('r'::('e'::('n'::('t'::(' '::('r'::('e'::('p'::('o'::('s'::('i'::('t'::('o'::('r'::('y'::(' '::('a'::('n'::('d'::(' '::('a'::('l'::('l'::(' '::('o'::('f'::(' '::('i'::('t'::('s'::(' '::('s'::('u'::('b'::('m'::('o'::('d'::('u'::('l'::('e'::('s'::(','::(' '::('r'::('e'::('s'::('p'::('e'::('c'::('t'::('i'::('n'::('g'::(' '::('t'::('h'::('e'::('\n'::('#'::(' '::('"'::('p'::('a'::('c'::('k'::('a'::('g'::('e'::('_'::('f'::('i'::('l'::('t'::('e'::('r'::('s'::('.'::('t'::('x'::('t'::('"'::(' '::('f'::('i'::('l'::('e'::(','::(' '::('a'::('n'::('d'::(' '::('s'::('e'::('t'::(' '::('u'::('p'::(' '::('t'::('h'::('e'::(' '::('b'::('u'::('i'::('l'::('d'::(' '::('o'::('f'::(' '::('t'::('h'::('o'::('s'::('e'::(' '::('p'::('a'::('c'::('k'::('a'::('g'::('e'::('s'::('.'::('\n'::('a'::('t'::('l'::('a'::('s'::('_'::('p'::('r'::('o'::('j'::('e'::('c'::('t'::('('::(' '::('U'::('s'::('e'::('r'::('A'::('n'::('a'::('l'::('y'::('s'::('i'::('s'::(' '::('1'::('.'::('0'::('.'::('0'::('\n'::(' '::(' '::(' '::('U'::('S'::('E'::(' '::('$'::('{'::('A'::('T'::('L'::('A'::('S'::('_'::('P'::('R'::('O'::('J'::('E'::('C'::('T'::('}'::(' '::('$'::('{'::('$'::('{'::('A'::('T'::('L'::('A'::('S'::('_'::('P'::('R'::('O'::('J'::('E'::('C'::('T'::('}'::('_'::('V'::('E'::('R'::('S'::('I'::('O'::('N'::('}'::(' '::(')'::('\n'::('\n'::('#'::(' '::('S'::('e'::('t'::(' '::('u'::('p'::(' '::('t'::('h'::('e'::(' '::('r'::('u'::('n'::('t'::('i'::('m'::('e'::(' '::('e'::('n'::('v'::('i'::('r'::('o'::('n'::('m'::('e'::('n'::('t'::(' '::('s'::('e'::('t'::('u'::('p'::(' '::('s'::('c'::('r'::('i'::('p'::('t'::('.'::(' '::('T'::('h'::('i'::('s'::(' '::('m'::('a'::('k'::('e'::('s'::(' '::('s'::('u'::('r'::('e'::(' '::('t'::('h'::('a'::('t'::(' '::('t'::('h'::('e'::('\n'::('#'::(' '::('p'::('r'::('o'::('j'::('e'::('c'::('t'::('\''::('s'::(' '::('"'::('s'::('e'::('t'::('u'::('p'::('.'::('s'::('h'::('"'::(' '::('s'::('c'::('r'::('i'::('p'::('t'::(' '::('c'::('a'::('n'::(' '::('s'::('e'::('t'::(' '::('u'::('p'::(' '::('a'::(' '::('f'::('u'::('l'::('l'::('y'::(' '::('f'::('u'::('n'::('c'::('t'::('i'::('o'::('n'::('a'::('l'::(' '::('r'::('u'::('n'::('t'::('i'::('m'::('e'::(' '::('e'::('n'::('v'::('i'::('r'::('o'::('n'::('m'::('e'::('n'::('t'::(','::('\n'::('#'::(' '::('i'::('n'::('c'::('l'::('u'::('d'::('i'::('n'::('g'::(' '::('a'::('l'::('l'::(' '::('t'::('h'::('e'::(' '::('e'::('x'::('t'::('e'::('r'::('n'::('a'::('l'::('s'::(' '::('t'::('h'::('a'::('t'::(' '::('t'::('h'::('e'::(' '::('p'::('r'::('o'::('j'::('e'::('c'::('t'::(' '::('u'::('s'::('e'::('s'::('.'::('\n'::('l'::('c'::('g'::('_'::('g'::('e'::('n'::('e'::('r'::('a'::('t'::('e'::('_'::('e'::('n'::('v'::('('::(' '::('S'::('H'::('_'::('F'::('I'::('L'::('E'::(' '::('$'::('{'::('C'::('M'::('A'::('K'::('E'::('_'::('B'::('I'::('N'::('A'::('R'::('Y'::('_'::('D'::('I'::('R'::('}'::('/'::('$'::('{'::('A'::('T'::('L'::('A'::('S'::('_'::('P'::('L'::('A'::('T'::('F'::('O'::('R'::('M'::('}'::('/'::('e'::('n'::('v'::('_'::('s'::('e'::('t'::('u'::('p'::('.'::('s'::('h'::(' '::(')'::('\n'::('i'::('n'::('s'::('t'::('a'::('l'::('l'::('('::(' '::('F'::('I'::('L'::('E'::('S'::(' '::('$'::('{'::('C'::('M'::('A'::('K'::('E'::('_'::('B'::('I'::('N'::('A'::('R'::('Y'::('_'::('D'::('I'::('R'::('}'::('/'::('$'::('{'::('A'::('T'::('L'::('A'::('S'::('_'::('P'::('L'::('A'::('T'::('F'::('O'::('R'::('M'::('}'::('/'::('e'::('n'::('v'::('_'::('s'::('e'::('t'::('u'::('p'::('.'::('s'::('h'::('\n'::(' '::(' '::(' '::('D'::('E'::('S'::('T'::('I'::('N'::('A'::('T'::('I'::('O'::('N'::(' '::('.'::(' '::(')'::('\n'::('\n'::('#'::(' '::('S'::('e'::('t'::(' '::('u'::('p'::(' '::('C'::('P'::('a'::('c'::('k'::('.'::(' '::('T'::('h'::('i'::('s'::(' '::('c'::('a'::('l'::('l'::(' '::('m'::('a'::('k'::('e'::('s'::(' '::('s'::('u'::('r'::('e'::(' '::('t'::('h'::('a'::('t'::(' '::('a'::('n'::(' '::('R'::('P'::('M'::(' '::('o'::('r'::(' '::('T'::('G'::('Z'::(' '::('f'::('i'::('l'::('e'::(' '::('c'::('a'::('n'::(' '::('b'::('e'::(' '::('c'::('r'::('e'::('a'::('t'::('e'::('d'::('\n'::('#'::(' '::('f'::('r'::('o'::('m'::(' '::('t'::('h'::('e'::(' '::('b'::('u'::('i'::('l'::('t'::(' '::('p'::('r'::('o'::('j'::('e'::('c'::('t'::('.'::(' '::('U'::('s'::('e'::('d'::(' '::('b'::('y'::(' '::('P'::('a'::('n'::('d'::('a'::(' '::('t'::('o'::(' '::('s'::('e'::('n'::('d'::(' '::('t'::('h'::('e'::(' '::('p'::('r'::('o'::('j'::('e'::('c'::('t'::(' '::('t'::('o'::(' '::('t'::('h'::('e'::(' '::('g'::('r'::('i'::('d'::(' '::('w'::('o'::('r'::('k'::('e'::('r'::('\n'::('#'::(' '::('n'::('o'::('d'::('e'::('s'::('.'::('\n'::('a'::('t'::('l'::('a'::('s'::('_'::('c'::('p'::('a'::('c'::('k'::('_'::('s'::('e'::('t'::('u'::('p'::('('::(')'::('\n'::[]))))))))))))))))))))))))))))))))))))))))))))))))))))))))))))))))))))))))))))))))))))))))))))))))))))))))))))))))))))))))))))))))))))))))))))))))))))))))))))))))))))))))))))))))))))))))))))))))))))))))))))))))))))))))))))))))))))))))))))))))))))))))))))))))))))))))))))))))))))))))))))))))))))))))))))))))))))))))))))))))))))))))))))))))))))))))))))))))))))))))))))))))))))))))))))))))))))))))))))))))))))))))))))))))))))))))))))))))))))))))))))))))))))))))))))))))))))))))))))))))))))))))))))))))))))))))))))))))))))))))))))))))))))))))))))))))))))))))))))))))))))))))))))))))))))))))))))))))))))))))))))))))))))))))))))))))))))))))))))))))))))))))))))))))))))))))))))))))))))))))))))))))))))))))))))))))))))))))))))))))))))))))))))))))))))))))))))))))))))))))))))))))))))))))))))))))))))))))))))))))))))))))))))))))))))))))))))))))))))))))))))))))))))))))))))))))))))))))))))))))))))))))))))))))))))))))))))))))))))))))))))))))))))))))))))))))))))))))))))))))))))))))))))))))))))))))))))))))))))))))))))))))))))))))))))))))))))))))))))))))))))))))))))))))))))))))))))))))))))))))))))))))))))))))))))))))))))))))))))))))))))))))))))))))))))))))))))))))))))))))))))))))))))))))))))))))))))))))))))))))))))))))))))))))))))))))))))))))))))))))))))))))))))))))))))))))))))))))))))))))))))))))))))))))))))))))))))))))))))))))))))))))))))))))))))))))))))))))))))))))))))))))))))))))))))))))))))))))))))))))))))))))))))))))))))))))))))))))))))))))))))))))))))))))))))))))))))))))))))))))))))))))))))))))))))))))))))))))))))))))))))))))))))))))))))))))))))))))))))))))))))))))))))))))))))))))))))))))))))))))))))))))))))))))))))))))))))))))))))))))))))))))))))))))))))))))))))))))))))))))))))))))))))))))))))))))))))))))))))))))))))))))))))))))))))))))))))))))))))))))))))))))))))))))))))))))))))))))))))))))))))))))))))))))))))))))))))))))))))))))))))))))))))))))))))))))))))))))))))))))))))))))))))))))))))))))))))))))))))))))))))))))))))))))))))))))))))))))))))))))))))))))))))))))))))))))))))))))))))))))))))))))))))))))))))))))))))))))))))))))))))))))))))))))))))))))))))))))))))))))))))))))))))))))))))))))))))))))))))))))))) :: (('#'::('i'::('f'::('n'::('d'::('e'::('f'::(' '::('a'::('n'::('a'::('l'::('y'::('s'::('i'::('s'::('_'::('q'::('u'::('e'::('r'::('y'::('_'::('D'::('I'::('C'::('T'::('_'::('H'::('\n'::('#'::('d'::('e'::('f'::('i'::('n'::('e'::(' '::('a'::('n'::('a'::('l'::('y'::('s'::('i'::('s'::('_'::('q'::('u'::('e'::('r'::('y'::('_'::('D'::('I'::('C'::('T'::('_'::('H'::('\n'::('\n'::('/'::('/'::(' '::('T'::('h'::('i'::('s'::(' '::('f'::('i'::('l'::('e'::(' '::('i'::('n'::('c'::('l'::('u'::('d'::('e'::('s'::(' '::('a'::('l'::('l'::(' '::('t'::('h'::('e'::(' '::('h'::('e'::('a'::('d'::('e'::('r'::(' '::('f'::('i'::('l'::('e'::('s'::(' '::('t'::('h'::('a'::('t'::(' '::('y'::('o'::('u'::(' '::('n'::('e'::('e'::('d'::(' '::('t'::('o'::(' '::('c'::('r'::('e'::('a'::('t'::('e'::('\n'::('/'::('/'::(' '::('d'::('i'::('c'::('t'::('i'::('o'::('n'::('a'::('r'::('i'::('e'::('s'::(' '::('f'::('o'::('r'::('.'::('\n'::('\n'::('#'::('i'::('n'::('c'::('l'::('u'::('d'::('e'::(' '::('<'::('a'::('n'::('a'::('l'::('y'::('s'::('i'::('s'::('/'::('q'::('u'::('e'::('r'::('y'::('.'::('h'::('>'::('\n'::('\n'::('#'::('e'::('n'::('d'::('i'::('f'::('\n'::[])))))))))))))))))))))))))))))))))))))))))))))))))))))))))))))))))))))))))))))))))))))))))))))))))))))))))))))))))))))))))))))))))))))))))))))))))))))))))))))))))))))))))))))))))))))))))) :: (('<'::('l'::('c'::('g'::('d'::('i'::('c'::('t'::('>'::('\n'::('\n'::(' '::(' '::('<'::('!'::('-'::('-'::(' '::('T'::('h'::('i'::('s'::(' '::('f'::('i'::('l'::('e'::(' '::('c'::('o'::('n'::('t'::('a'::('i'::('n'::('s'::(' '::('a'::(' '::('l'::('i'::('s'::('t'::(' '::('o'::('f'::(' '::('a'::('l'::('l'::(' '::('c'::('l'::('a'::('s'::('s'::('e'::('s'::(' '::('f'::('o'::('r'::(' '::('w'::('h'::('i'::('c'::('h'::(' '::('a'::(' '::('d'::('i'::('c'::('t'::('i'::('o'::('n'::('a'::('r'::('y'::('\n'::(' '::(' '::(' '::(' '::(' '::(' '::(' '::('s'::('h'::('o'::('u'::('l'::('d'::(' '::('b'::('e'::(' '::('c'::('r'::('e'::('a'::('t'::('e'::('d'::('.'::(' '::('-'::('-'::('>'::('\n'::('\n'::(' '::(' '::('<'::('c'::('l'::('a'::('s'::('s'::(' '::('n'::('a'::('m'::('e'::('='::('"'::('q'::('u'::('e'::('r'::('y'::('"'::(' '::('/'::('>'::('\n'::(' '::(' '::(' '::('\n'::('<'::('/'::('l'::('c'::('g'::('d'::('i'::('c'::('t'::('>'::('\n'::[]))))))))))))))))))))))))))))))))))))))))))))))))))))))))))))))))))))))))))))))))))))))))))))))))))))))))))))))))))))))))))))))))))))))))))))))))))))))))) :: []))
+
+(** val script_rest : cmds **)
+
+let script_rest =
+  script_rest_of (fun i -> nth i heredocs [])
+
+(** val script : cmds **)
+
+let script =
+  capp script_pre (CCons ((CGetopts (script_os, script_var, script_arms)),
+    script_rest))
+
+(** val script_pre0 : cmds **)
+
+let script_pre0 =
   CCons (CSetE, (CCons (CSetX, (CCons ((CAssign
     (('o'::('u'::('t'::('p'::('u'::('t'::('_'::('m'::('e'::('t'::('h'::('o'::('d'::[]))))))))))))),
     ((WLit ('c'::('p'::[]))) :: []))), (CCons ((CAssign
@@ -4052,9 +4127,22 @@ let script0 =
     ((WLit []) :: []))), (CCons ((CAssign
     (('c'::('o'::('m'::('p'::('i'::('l'::('e'::[]))))))), ((WLit
     ('1'::[])) :: []))), (CCons ((CAssign (('r'::('u'::('n'::[]))), ((WLit
-    ('1'::[])) :: []))), (CCons ((CGetopts
-    (('d'::(':'::('o'::(':'::('c'::('r'::[])))))), ('o'::('p'::('t'::[]))),
-    (ACons (('d'::[]), (CCons ((CAssign
+    ('1'::[])) :: []))), CNil)))))))))))))))
+
+(** val script_os0 : char list **)
+
+let script_os0 =
+  'd'::(':'::('o'::(':'::('c'::('r'::[])))))
+
+(** val script_var0 : char list **)
+
+let script_var0 =
+  'o'::('p'::('t'::[]))
+
+(** val script_arms0 : arms **)
+
+let script_arms0 =
+  ACons (('d'::[]), (CCons ((CAssign
     (('i'::('n'::('p'::('u'::('t'::('_'::('m'::('e'::('t'::('h'::('o'::('d'::[])))))))))))),
     ((WLit ('c'::('m'::('d'::[])))) :: []))), (CCons ((CAssign
     (('i'::('n'::('p'::('u'::('t'::('_'::('f'::('i'::('l'::('e'::[])))))))))),
@@ -4066,9 +4154,12 @@ let script0 =
     (('o'::('u'::('t'::('p'::('u'::('t'::('_'::('d'::('i'::('r'::[])))))))))),
     ((WVar (false, ('O'::('P'::('T'::('A'::('R'::('G'::[])))))))) :: []))),
     CNil)), (ACons (('?'::[]), (CCons ((CExit (S (S (S (S (S (S (S (S (S (S
-    O))))))))))), CNil)), ANil)))))))))))), (CCons (CShiftOpt, (CCons ((CIf
-    ((BCons ((TNe (((WVar (false, ('#'::[]))) :: []), ((WLit
-    ('0'::[])) :: []))), (CCons ((CEcho ((((WLit
+    O))))))))))), CNil)), ANil)))))))))
+
+(** val script_rest_of0 : (nat -> char list) -> cmds **)
+
+let script_rest_of0 _ =
+  CCons (CShiftOpt, (CCons ((CIf ((BCons (TArgsLeft, (CCons ((CEcho ((((WLit
     ('E'::('x'::('t'::('r'::('a'::(' '::('a'::('r'::('g'::('u'::('m'::('e'::('n'::('t'::('s'::(' '::('o'::('n'::(' '::('t'::('h'::('e'::(' '::('c'::('o'::('m'::('m'::('a'::('n'::('d'::(' '::('l'::('i'::('n'::('e'::(' '::[]))))))))))))))))))))))))))))))))))))) :: ((WVar
     (true, ('@'::[]))) :: [])) :: []), None)), (CCons ((CExit (S O)),
     CNil)))), BNil)), CNil)), (CCons ((CIf ((BCons ((TStrZ ((WVar (true,
@@ -4191,12 +4282,27 @@ let script0 =
     ('.'::('/'::('t'::('e'::('m'::('p'::('-'::('o'::('u'::('t'::('p'::('u'::('t'::('.'::('r'::('o'::('o'::('t'::[]))))))))))))))))))) :: []) :: (((WVar
     (false,
     ('d'::('e'::('s'::('t'::('i'::('n'::('a'::('t'::('i'::('o'::('n'::[]))))))))))))) :: []) :: [])))),
-    CNil)))))))), CNil)))))))))), BNil)), CNil)),
-    CNil)))))))))))))))))))))))))))))))
+    CNil)))))))), CNil)))))))))), BNil)), CNil)), CNil)))))))))))))
 
-(** val script1 : cmds **)
+(** val heredocs0 : char list list **)
 
-let script1 =
+let heredocs0 =
+  []
+
+(** val script_rest0 : cmds **)
+
+let script_rest0 =
+  script_rest_of0 (fun i -> nth i heredocs0 [])
+
+(** val script0 : cmds **)
+
+let script0 =
+  capp script_pre0 (CCons ((CGetopts (script_os0, script_var0,
+    script_arms0)), script_rest0))
+
+(** val script_pre1 : cmds **)
+
+let script_pre1 =
   CCons (CSetE, (CCons (CSetX, (CCons ((CAssign
     (('o'::('u'::('t'::('p'::('u'::('t'::('_'::('m'::('e'::('t'::('h'::('o'::('d'::[]))))))))))))),
     ((WLit ('c'::('p'::[]))) :: []))), (CCons ((CAssign
@@ -4212,9 +4318,22 @@ let script1 =
     ((WLit []) :: []))), (CCons ((CAssign
     (('c'::('o'::('m'::('p'::('i'::('l'::('e'::[]))))))), ((WLit
     ('1'::[])) :: []))), (CCons ((CAssign (('r'::('u'::('n'::[]))), ((WLit
-    ('1'::[])) :: []))), (CCons ((CGetopts
-    (('d'::(':'::('o'::(':'::('c'::('r'::[])))))), ('o'::('p'::('t'::[]))),
-    (ACons (('d'::[]), (CCons ((CAssign
+    ('1'::[])) :: []))), CNil)))))))))))))))
+
+(** val script_os1 : char list **)
+
+let script_os1 =
+  'd'::(':'::('o'::(':'::('c'::('r'::[])))))
+
+(** val script_var1 : char list **)
+
+let script_var1 =
+  'o'::('p'::('t'::[]))
+
+(** val script_arms1 : arms **)
+
+let script_arms1 =
+  ACons (('d'::[]), (CCons ((CAssign
     (('i'::('n'::('p'::('u'::('t'::('_'::('m'::('e'::('t'::('h'::('o'::('d'::[])))))))))))),
     ((WLit ('c'::('m'::('d'::[])))) :: []))), (CCons ((CAssign
     (('i'::('n'::('p'::('u'::('t'::('_'::('f'::('i'::('l'::('e'::[])))))))))),
@@ -4226,9 +4345,12 @@ let script1 =
     (('o'::('u'::('t'::('p'::('u'::('t'::('_'::('d'::('i'::('r'::[])))))))))),
     ((WVar (false, ('O'::('P'::('T'::('A'::('R'::('G'::[])))))))) :: []))),
     CNil)), (ACons (('?'::[]), (CCons ((CExit (S (S (S (S (S (S (S (S (S (S
-    O))))))))))), CNil)), ANil)))))))))))), (CCons (CShiftOpt, (CCons ((CIf
-    ((BCons ((TNe (((WVar (false, ('#'::[]))) :: []), ((WLit
-    ('0'::[])) :: []))), (CCons ((CEcho ((((WLit
+    O))))))))))), CNil)), ANil)))))))))
+
+(** val script_rest_of1 : (nat -> char list) -> cmds **)
+
+let script_rest_of1 _ =
+  CCons (CShiftOpt, (CCons ((CIf ((BCons (TArgsLeft, (CCons ((CEcho ((((WLit
     ('E'::('x'::('t'::('r'::('a'::(' '::('a'::('r'::('g'::('u'::('m'::('e'::('n'::('t'::('s'::(' '::('o'::('n'::(' '::('t'::('h'::('e'::(' '::('c'::('o'::('m'::('m'::('a'::('n'::('d'::(' '::('l'::('i'::('n'::('e'::(' '::[]))))))))))))))))))))))))))))))))))))) :: ((WVar
     (true, ('@'::[]))) :: [])) :: []), None)), (CCons ((CExit (S O)),
     CNil)))), BNil)), CNil)), (CCons ((CIf ((BCons ((TStrZ ((WVar (true,
@@ -4352,8 +4474,23 @@ let script1 =
     ('.'::('/'::('t'::('e'::('m'::('p'::('-'::('o'::('u'::('t'::('p'::('u'::('t'::('.'::('r'::('o'::('o'::('t'::[]))))))))))))))))))) :: []) :: (((WVar
     (false,
     ('d'::('e'::('s'::('t'::('i'::('n'::('a'::('t'::('i'::('o'::('n'::[]))))))))))))) :: []) :: [])))),
-    CNil)))))))), CNil)))))))))), BNil)), CNil)),
-    CNil)))))))))))))))))))))))))))))))
+    CNil)))))))), CNil)))))))))), BNil)), CNil)), CNil)))))))))))))
+
+(** val heredocs1 : char list list **)
+
+let heredocs1 =
+  []
+
+(** val script_rest1 : cmds **)
+
+let script_rest1 =
+  script_rest_of1 (fun i -> nth i heredocs1 [])
+
+(** val script1 : cmds **)
+
+let script1 =
+  capp script_pre1 (CCons ((CGetopts (script_os1, script_var1,
+    script_arms1)), script_rest1))
 
 (** val dispatch : char list -> sexp -> sexp **)
 
@@ -4365,13 +4502,13 @@ let dispatch cmd0 arg =
        then audit math_env documented
        else if eqb0 cmd0
                  ('c'::('1'::('6'::('.'::('a'::('t'::('l'::('a'::('s'::('_'::('r'::('2'::('1'::[])))))))))))))
-            then run_wire script pkg_atlas arg
+            then run_wire script pkg_atlas slots_atlas arg
             else if eqb0 cmd0
                       ('c'::('1'::('6'::('.'::('c'::('m'::('s'::('_'::('r'::('5'::[]))))))))))
-                 then run_wire script0 pkg_cms arg
+                 then run_wire script0 pkg_cms slots_cms arg
                  else if eqb0 cmd0
                            ('c'::('1'::('6'::('.'::('c'::('m'::('s'::('_'::('r'::('7'::[]))))))))))
-                      then run_wire script1 pkg_cms arg
+                      then run_wire script1 pkg_cms slots_cms arg
                       else if eqb0 cmd0
                                 ('c'::('1'::('6'::('.'::('g'::('e'::('t'::('o'::('p'::('t'::('s'::[])))))))))))
                            then run_getopts arg
